@@ -358,9 +358,9 @@ class Game:
             if g is None:
                 raise AnalysisError("%s: game dictionary not found" % qual)
         self.dict = {k[1]: v for k, v in g[1] if is_const(k)}
-        for key in ("rewards", "players", "transition_list", "final_states"):
-            if key not in self.dict:
-                raise AnalysisError("%s: game dictionary lacks %r" % (qual, key))
+        if "transition_list" not in self.dict:
+            raise AnalysisError("%s: game dictionary lacks 'transition_list'" % qual)
+        self.missing_keys = [k for k in ("rewards", "players", "final_states") if k not in self.dict]
         self.L, self.W = ("v", self.names["length"]), ("v", self.names["width"])
         self._blocks()
 
@@ -455,6 +455,8 @@ class Game:
         binds = {self.L: case.L, self.W: case.W}
         ce = CaseEval(self.sx, case, binds, 0, 0, self.names)
         out = []
+        if key not in self.dict:
+            raise Undecided("%s: the emitted game has no key %r" % (self.func.short, key))
         for leaf in self._leaves(self.dict[key]):
             if leaf[0] == "compr":
                 L = self.sx.loops[leaf[1]]
